@@ -28,6 +28,12 @@ ghost leaf/root mode.  Here that hypothesis is derived for the runs of the activ
   hard_disk_dipoles/*), `dipoles/dipole_motion.ini` being the one that switches; `all_composite_modeSound` covers whatever the
   translator classifies as composite.
 
+* `drawsRoot_iff_root`: under the one-chain invariant in mode `m` (objects with at least two point masses) the test the end-of-chain
+  handler itself makes on the global state at the request (`len(children) == number_of_nodes_per_root_node`) decides `m`; with the
+  composed corollary this is why `hkind` may speak about the mode of the ACTIVATION state at the request.
+* `py_mode_tables_agree`: the Python mirror of `modeOf` that `harness/modecorr.py` applies to recorded activation flags computes
+  Lean's `modeOf` on every reachable activation state of every shipped composite configuration.
+
 What remains a hypothesis (measured on every recorded run by `harness/modecorr.py`): `hkind` (the table `kindsOf` per handler
 class), and the hypotheses `run_inv` already has (`FootprintsSound` for composite-object worlds, `LiveIs`).
 -/
@@ -414,6 +420,47 @@ theorem run_chain_clause_of_modeSound {d : Nat} {L : List ℚ} (hL : BoxOK d L) 
 
 end composed
 
+/-! ### the end-of-chain handler's own test and the ghost mode
+
+`hkind` for the end of chain says: the leaf variant if the candidate was requested in a leaf-mode ACTIVATION state.  The handler
+itself decides on the GLOBAL state it is handed at the request (`_get_new_active_identifiers`: `len(children) ==
+number_of_nodes_per_root_node`, i.e. the branch of the independent active unit holds every point mass of its composite object).
+By the composed corollary the global state at the request satisfies `OneChainM … (ofW (mw.mode σ))`; for objects with at least two
+point masses the handler's test then decides exactly that mode. -/
+
+/-- the test of `_get_new_active_identifiers` on the model state: some object has a moving leaf, and all of its leaves move -/
+def DrawsRoot (cs : List (CObj ℚ)) : Prop :=
+  ∃ (i : Nat) (c : CObj ℚ), cs[i]? = some c ∧ (∃ l ∈ c.leaves, l.vel ≠ none) ∧ ∀ l ∈ c.leaves, l.vel ≠ none
+
+theorem drawsRoot_iff_root {cs : List (CObj ℚ)} {sq : ℚ} {m : Mode} (h : OneChainM cs sq m)
+    (h2 : ∀ c ∈ cs, 2 ≤ c.leaves.length) : DrawsRoot cs ↔ m = .root := by
+  cases m with
+  | root =>
+    obtain ⟨i, v, _, ⟨c, hc, hne, hall⟩, _⟩ := h
+    refine ⟨fun _ => rfl, fun _ => ⟨i, c, hc, ?_, fun l hl => by rw [hall l hl]; simp⟩⟩
+    obtain ⟨l, hl⟩ := List.exists_mem_of_ne_nil _ hne
+    exact ⟨l, hl, by rw [hall l hl]; simp⟩
+  | leaf =>
+    obtain ⟨i, j, v, _, ⟨c, hc, ⟨_, _, _⟩, hoth⟩, hrest⟩ := h
+    refine ⟨?_, fun hm => by cases hm⟩
+    rintro ⟨i', c', hc', ⟨l, hl, hlv⟩, hall⟩
+    exfalso
+    have hi : i' = i := by
+      by_contra hne
+      exact hlv (hrest i' c' hc' hne l hl)
+    subst hi
+    rw [hc] at hc'
+    simp only [Option.some.injEq] at hc'
+    subst hc'
+    have hlen := h2 c (List.mem_of_getElem? hc)
+    -- a leaf other than `j`
+    have hk : ∃ k, k < c.leaves.length ∧ k ≠ j := by
+      by_cases hj : j = 0
+      · exact ⟨1, by omega, by omega⟩
+      · exact ⟨0, by omega, fun h0 => hj h0.symm⟩
+    obtain ⟨k, hk, hkj⟩ := hk
+    exact hall c.leaves[k] (List.getElem_mem hk) (hoth k c.leaves[k] (List.getElem?_eq_getElem hk) hkj)
+
 end JF.C12
 
 /-! ## generated obligations: the shipped wirings with composite objects
@@ -633,7 +680,7 @@ theorem es_admWFree : AdmWFree 2 exL (step Ops.rat isZ exL [exC0, exC1] (.start 
 /-- **the composed corollary applies**: no mode hypothesis and no at-rest / which-leaves-move hypothesis was supplied; the history is
 admissible in the strong sense, every object stays consistent, and one chain moves — in leaf mode, as the activation flags of the
 reached activator state `rs7` say -/
-example : AdmRun 2 exL [exC0, exC1] (.start 0 [0] [1, 0] :: es) ∧
+theorem ex_composed : AdmRun 2 exL [exC0, exC1] (.start 0 [0] [1, 0] :: es) ∧
     AllGood 2 exL (run Ops.rat isZ exL [exC0, exC1] (.start 0 [0] [1, 0] :: es)) ∧
     OneChainM (run Ops.rat isZ exL [exC0, exC1] (.start 0 [0] [1, 0] :: es)) 1 .leaf ∧
     OneChain (run Ops.rat isZ exL [exC0, exC1] (.start 0 [0] [1, 0] :: es)) 1 ∧
@@ -647,6 +694,20 @@ example : AdmRun 2 exL [exC0, exC1] (.start 0 [0] [1, 0] :: es) ∧
   have e : nsq [1, 0] = 1 := by norm_num [nsq]
   rw [e, hend] at this
   exact this
+
+/-- `drawsRoot_iff_root` applies to the reached state (two point masses per object): an end-of-chain candidate requested now draws a
+point mass, as `kindsOf .endOfChain .leaf = [.eocLeaf]` says for the leaf-mode activation state `rs7` -/
+example : ¬ DrawsRoot (run Ops.rat isZ exL [exC0, exC1] (.start 0 [0] [1, 0] :: es)) := by
+  have h2 : ∀ c ∈ run Ops.rat isZ exL [exC0, exC1] (.start 0 [0] [1, 0] :: es), 2 ≤ c.leaves.length := by
+    have e : (run Ops.rat isZ exL [exC0, exC1] (.start 0 [0] [1, 0] :: es)).map (·.leaves.length) = [2, 2] := by decide +kernel
+    intro c hc
+    have : c.leaves.length ∈ (run Ops.rat isZ exL [exC0, exC1] (.start 0 [0] [1, 0] :: es)).map (·.leaves.length) :=
+      List.mem_map.mpr ⟨c, hc, rfl⟩
+    rw [e] at this
+    simp at this
+    omega
+  intro hd
+  exact absurd ((drawsRoot_iff_root ex_composed.2.2.1 h2).mp hd) (by decide)
 
 /-- the hypothesis on the kinds cannot be dropped: the same events in another order (`pass` first, in leaf mode) are not the kinds of
 any run of the wiring — `kRun` fails at once — and indeed `C12Chain`'s mode hypothesis fails for them -/
